@@ -275,7 +275,7 @@ class FST:
                         new_rules.append(ProductionRule(
                             str((state_p, rule.left_term, state_q)),
                             str((state_p, rule.right_term, state_q)),
-                            str(rule.production)))
+                            rule.production))
             elif rule.is_end_rule():
                 for state_p in self._states:
                     for state_q in self._states:
